@@ -54,6 +54,7 @@ var c04Patterns = []interface{}{
 	M{"actionError": "?e"},
 	M{"a": "?x", "b": "?x"},
 	M{"?k": 1.0},
+	M{"a": "?<n"},
 }
 
 var c04Targets = []string{"n1", "n2", "@t", "@?t", "missing"}
@@ -96,6 +97,7 @@ var c04States = []M{
 	{"?x": 2.0, "a": 2.0},
 	{"k!": 1.0, "a": 1.0, "b": 1.0},
 	{"?t": "n2", "t": "n1"},
+	{"?<n": 5.0, "a": 1.0},
 }
 
 var c04Pendings = []interface{}{
